@@ -1,4 +1,4 @@
-(* Proofs/C03_ReachHist.v - histories: every record reached by parse / join outside the file class and
+(* Proofs/C03_ReachHist.v - histories: every record reached by parse / join (any scheme) and
    by the mutators whose invariant preservation C06 proves (set_fragment, set_query, set_port,
    set_password, set_username, set_scheme, set_host(None) and set_ip_host outside their known classes,
    set_path and path_segments_mut sessions on records with an authority) satisfies
@@ -7,7 +7,7 @@ From RU Require Import Base.Prelude Base.Utf8 Model.AsciiSet Gen.Tables Model.Pe
   Model.HostT Model.UrlRecord Model.Parser Model.Setters Model.WF
   Proofs.ListN Proofs.C03_WF Proofs.C06_List Proofs.C06_WFI Proofs.C06_Suffix Proofs.C06_HostNone Proofs.C06_Host
   Proofs.C06_Segments Proofs.C06_Path Proofs.C06_Main Proofs.C06_PathMore
-  Proofs.C04_ParseTotal Proofs.C03_ReachParts Proofs.C03_Reach.
+  Proofs.C04_ParseTotal Proofs.C03_ReachParts Proofs.C03_Reach Proofs.C03_ReachFile.
 
 Section Hist.
 Variable dbg : bool.
@@ -15,11 +15,9 @@ Variable hp hpo : list N -> result host.
 Variable hd : host -> list N.
 
 Inductive reach03 : url -> Prop :=
-| R3_parse ovr input u :
-    file_involved None input = false -> parse_url dbg hp hpo hd ovr None input = POk u -> reach03 u
+| R3_parse ovr input u : parse_url dbg hp hpo hd ovr None input = POk u -> reach03 u
 | R3_join ovr b input u :
-    reach03 b -> base_ok b = true -> file_involved (Some b) input = false ->
-    parse_url dbg hp hpo hd ovr (Some b) input = POk u -> reach03 u
+    reach03 b -> base_ok b = true -> parse_url dbg hp hpo hd ovr (Some b) input = POk u -> reach03 u
 | R3_fragment u f u' : reach03 u -> set_fragment dbg u f = Some u' -> reach03 u'
 | R3_query u q u' : reach03 u -> str_arg_ok q -> set_query dbg u q = Some u' -> reach03 u'
 | R3_port u p u' st : reach03 u -> port_arg_ok p -> set_port dbg u p = Some (u', st) -> reach03 u'
@@ -44,11 +42,11 @@ Inductive reach03 : url -> Prop :=
 Theorem reach03_wfh : HostWf hp hpo hd -> forall u, reach03 u -> wfh u.
 Proof.
   intros HW u R. induction R as
-    [ovr input u Hk Hp | ovr b input u Rb IHb Hb Hk Hp | u f u' R IH H | u q u' R IH Hq H | u p u' st R IH Hp H
+    [ovr input u Hp | ovr b input u Rb IHb Hb Hp | u f u' R IH H | u q u' R IH Hq H | u p u' st R IH Hp H
     | u pw u' st R IH H | u un u' st R IH H | u s u' st R IH H | u u' st R IH H1 H2 H | u h u' st R IH H1 H2 H3 H
     | u p u' R IH Ha Hp He H | u ops u' R IH Ha Ho H].
-  - exact (parse_url_wf dbg hp hpo hd ovr HW None input u I Hk Hp).
-  - destruct IHb as [Wb Tb]. exact (parse_url_wf dbg hp hpo hd ovr HW (Some b) input u (conj Hb Tb) Hk Hp).
+  - exact (parse_url_wf_all dbg hp hpo hd ovr HW None input u I Hp).
+  - destruct IHb as [Wb Tb]. exact (parse_url_wf_all dbg hp hpo hd ovr HW (Some b) input u (conj Hb Tb) Hp).
   - destruct (wf_all dbg hp hpo hd u IH) as (A & _). exact (A _ _ H).
   - destruct (wf_all dbg hp hpo hd u IH) as (_ & A & _). exact (A _ _ Hq H).
   - destruct (wf_all dbg hp hpo hd u IH) as (_ & _ & A & _). exact (A _ _ _ Hp H).
